@@ -121,6 +121,62 @@ func lookupCases(out *hutil.Out, rng *hutil.Rng, n int, exhaustive bool) {
 	}
 }
 
+// ---- InputFromMap (fixer / language-server fix path): several files in one call ----------------
+
+var mapFiles = []string{"/p.rego", "/a/p.rego", "/a/b/p.rego", "/ab/p.rego", "/b/p.rego", "/c/d/p.rego", "/b/a/p.rego"}
+
+func fromMapCases(out *hutil.Out, rng *hutil.Rng, n int) {
+	for c := 0; c < n; c++ {
+		nk := 1 + rng.Below(3)
+		m := map[string]ast.RegoVersion{}
+		var kvs []kv
+		for i := 0; i < nk; i++ {
+			k := hutil.Choice(rng, cleanKeys)
+			if c%3 == 0 && k == "" {
+				continue // often no project-wide version: files outside every versioned directory exist
+			}
+			if _, dup := m[k]; dup {
+				continue
+			}
+			v := toVer(rng.Below(2))
+			m[k] = v
+			kvs = append(kvs, kv{k, vname(v)})
+		}
+		nf := 2 + rng.Below(len(mapFiles)-1)
+		names := append([]string{}, mapFiles...)
+		hutil.Shuffle(rng, names)
+		names = names[:nf]
+		files := map[string]string{}
+		for _, f := range names {
+			files[f] = contents["both"]
+		}
+		got := map[string][]string{}
+		seen := map[string]map[string]bool{}
+		// Go map iteration order is random: repeat and record every version observed per file
+		for r := 0; r < 10; r++ {
+			in, err := rules.InputFromMap(files, m)
+			for _, f := range names {
+				if seen[f] == nil {
+					seen[f] = map[string]bool{}
+				}
+				if err != nil {
+					seen[f]["error"] = true
+					continue
+				}
+				seen[f][vname(in.Modules[f].RegoVersion())] = true
+			}
+		}
+		for f, s := range seen {
+			for v := range s {
+				got[f] = append(got[f], v)
+			}
+			sort.Strings(got[f])
+		}
+		sort.Strings(names)
+		out.Emit(map[string]any{"kind": "frommap", "m": kvs, "files": names, "got": got})
+	}
+}
+
 // ---- tree level ---------------------------------------------------------------------------
 
 var contents = map[string]string{
@@ -257,6 +313,7 @@ func main() {
 		nLookup, nTree = 6000, 600
 	}
 	lookupCases(out, rng, nLookup, true)
+	fromMapCases(out, rng, nLookup/4)
 
 	// fixed, always-run trees (the corpus): sibling prefix, nested roots, root manifest vs project
 	zero, one := 0, 1
